@@ -25,6 +25,11 @@ import (
 
 var handled int64 // lines the in port's reader goroutine has dealt with (hook)
 
+var (
+	evMu  sync.Mutex
+	evLog []string // hook events of the current history (emitted under the port mutex: their order is the lock order)
+)
+
 // set when the stop function of the listener with that id has RETURNED; a callback that starts afterwards is a violation of
 // "after a stop function returns, its listener is never called again"
 type mdrv struct {
@@ -449,18 +454,23 @@ func runDrv(rec *DrvRec) {
 
 func runOne(h *pr.History, w *hx.Writer) bool {
 	m := newM()
+	evMu.Lock()
+	evLog = nil
+	evMu.Unlock()
 	ok := pr.Run(m, h)
+	if ok {
+		m.Teardown() // so that the events of closing the port belong to this history
+	}
+	evMu.Lock()
+	h.Events = append([]string{}, evLog...)
+	evMu.Unlock()
 	for i := range h.Steps {
 		if h.Steps[i].Msgs == nil {
 			h.Steps[i].Msgs = [][]int{}
 		}
 	}
 	w.Put(h)
-	if !ok {
-		return false // a call hung: this process is not usable any more
-	}
-	m.Teardown()
-	return true
+	return ok // false: a call hung, this process is not usable any more
 }
 
 func main() {
@@ -469,6 +479,9 @@ func main() {
 		os.Exit(3)
 	}
 	midicatdrv.VerifSetHook(func(ev string) {
+		evMu.Lock()
+		evLog = append(evLog, ev)
+		evMu.Unlock()
 		if ev == "line-delivered" || ev == "line-dropped" {
 			atomic.AddInt64(&handled, 1)
 		}
